@@ -130,7 +130,13 @@ pub fn build(events: &[Event], view: &WireView, real_is_initiator: bool, min_seg
             .map(|(_, (_, l))| *l as u64)
             .sum()
     };
+    // index of the latest "retransmission timer found expired" hook event not yet used up by a send
+    let mut timer_fired: Option<usize> = None;
     for (i, e) in events.iter().enumerate() {
+        if let Ev::Hook(librqbit_utp::verif::VerifEvent::RetransmitTimerExpired { .. }) = &e.ev {
+            timer_fired = Some(i);
+            continue;
+        }
         if let Ev::Api { conn: 0, side: 0, op } = &e.ev {
             match op {
                 crate::events::ApiOp::WriteRet(Ok(n)) => {
@@ -286,7 +292,21 @@ pub fn build(events: &[Event], view: &WireView, real_is_initiator: bool, min_seg
                 n_before = 0;
             }
             let already_acked = idx <= cum_acked || sacked.contains(&idx);
-            let spontaneous = last_stim_t != Some(e.t) && last_write_t != Some(e.t);
+            // Timer-driven: the send path found the retransmission timer expired in this poll, and
+            // this is the datagram it emitted for it (the timeout path sends exactly one). Exact,
+            // from the hook - a packet or a write at the same instant does not blur it.
+            let _ = (last_stim_t, last_write_t);
+            let spontaneous = match timer_fired {
+                Some(ti) if events[ti].t == e.t && !is_fin => {
+                    timer_fired = None;
+                    true
+                }
+                Some(ti) if events[ti].t == e.t => {
+                    timer_fired = None;
+                    true
+                }
+                _ => false,
+            };
             if spontaneous && !is_fin {
                 // a data packet sent on a timer is the timeout path: a loss event for the sender
                 after_first_loss = true;
